@@ -67,26 +67,26 @@ type Options struct {
 
 type Machine struct {
 	justRotated bool
-	E      *wenv.Env
-	T      *rapid.T
-	Opt    Options
-	Tokens []*Token
-	Trace  []string
-	Count  map[string]int
-	ops    []string
+	E           *wenv.Env
+	T           *rapid.T
+	Opt         Options
+	Tokens      []*Token
+	Trace       []string
+	Count       map[string]int
+	ops         []string
 
 	pendExp map[string]map[string]pend // wallet -> secret -> expected pending record
 	melts   []*meltRec
 	retired map[string]bool
 
-	reqSeen  int
-	signedB  map[string]map[string]bool // wallet seed owner (mnemonic) -> B_ that got a signature
-	knownR   map[string]string          // blinding factor hex (lower) -> origin
-	outSecr  map[string]string          // secret of an output created by a wallet -> wallet (until spent it must not be sent)
-	nextID   int
+	reqSeen int
+	signedB map[string]map[string]bool // wallet seed owner (mnemonic) -> B_ that got a signature
+	knownR  map[string]string          // blinding factor hex (lower) -> origin
+	outSecr map[string]string          // secret of an output created by a wallet -> wallet (until spent it must not be sent)
+	nextID  int
 
-	gaps       map[string]int64
-	derivCache map[derivKey][]seedOut
+	gaps           map[string]int64
+	derivCache     map[derivKey][]seedOut
 	counterFlagged map[string]bool
 	signedIn       map[string]string
 	// Detail describes the last operation precisely enough to serve in violation signatures
@@ -112,7 +112,12 @@ func New(t *rapid.T, opt Options) *Machine {
 		fees = append(fees, rapid.SampledFrom(opt.Fees).Draw(t, "mint_fee"))
 		modes = append(modes, lnmodel.FeeMode(rapid.IntRange(0, 1).Draw(t, "fee_mode")))
 	}
-	e := wenv.New(t, caseSeed, fees, modes)
+	// two mints in five sit behind one of the repository's own backend adapters
+	var adapters []string
+	for range fees {
+		adapters = append(adapters, rapid.SampledFrom([]string{"", "", "", "cln", "lnd"}).Draw(t, "mint_backend_adapter"))
+	}
+	e := wenv.New(t, caseSeed, fees, modes, adapters...)
 	m := &Machine{E: e, T: t, Opt: opt, Count: map[string]int{}, pendExp: map[string]map[string]pend{}, retired: map[string]bool{},
 		signedB: map[string]map[string]bool{}, knownR: map[string]string{}, outSecr: map[string]string{}}
 	for i := 0; i < opt.Wallets; i++ {
